@@ -1540,6 +1540,10 @@ Hendaccess(int32 access_id)
     /* if special elt, call special function */
     if (access_rec->special) {
         ret_value = (*access_rec->special_func->endaccess)(access_rec);
+        /* the special function has released the access record, also when it
+           fails: releasing it again below put it on the free list twice and
+           two later access ids shared one record */
+        access_rec = NULL;
         goto done;
     } /* end if */
 
